@@ -55,6 +55,7 @@ St0 == [p |-> Proc0,
         lookalikes |-> 0,        \* lines on a child's fd 2 that parse as a report header
         spawnFailed |-> 0,       \* Popen raised for a layer subprocess
         reportCut |-> 0,         \* a child's report was cut short / it died writing it
+        reportMaybe |-> 0,       \* a child died at a line end that may or may not be the report's last
         parentCant |-> FALSE,
         at |-> 0,                \* index of the event being consumed
         errs |-> <<>>]
@@ -166,7 +167,9 @@ Step(w, o, s, e) ==
     [] e.e = "SP" -> IF e.s = "fail" THEN [s EXCEPT !.spawnFailed = @ + 1] ELSE s
     [] e.e = "LOOK" -> IF s.role = "child" THEN [s EXCEPT !.lookalikes = @ + 1] ELSE s
     \* a report that lost nothing but its final line end has arrived completely
-    [] e.e = "CUT" -> IF e.s = "eol" THEN s ELSE [s EXCEPT !.reportCut = @ + 1]
+    [] e.e = "CUT" -> IF e.s = "eol" THEN s
+                      ELSE IF e.s = "maybe" THEN [s EXCEPT !.reportMaybe = @ + 1]
+                      ELSE [s EXCEPT !.reportCut = @ + 1]
     [] OTHER -> s
 
 (* ----- end-of-trace clauses ------------------------------------------------*)
@@ -291,9 +294,14 @@ Final(w, o, s, r) ==
                   THEN "C01:resume-not-fresh"
              ELSE ""
       c02 == IF o.list THEN ""
+             ELSE IF r.failed /\ ~AnyBad(w, o, s) /\ s.reportMaybe > 0 THEN ""
              ELSE IF r.failed # AnyBad(w, o, s) THEN
-                  (IF ~r.failed /\ s.lookalikes > 0
-                   THEN "C02:passed-after-header-lookalike-on-child-fd2" ELSE "C02:verdict")
+                  \* the numbers of a header look-alike are taken for the child's: its
+                  \* failures are lost, or it announces failures that never happened
+                  (IF s.lookalikes > 0
+                   THEN (IF r.failed THEN "C02:failed-after-header-lookalike-on-child-fd2"
+                         ELSE "C02:passed-after-header-lookalike-on-child-fd2")
+                   ELSE "C02:verdict")
              ELSE ""
       c16 == IF o.stop /\ AnyBad(w, o, s) /\ ~o.list
                 /\ (~r.failed \/ (~r.hasSummary /\ s.seen # {}))
@@ -381,8 +389,9 @@ Final(w, o, s, r) ==
              ELSE ""
       c02b == IF o.list THEN ""
               \* (a peer fooled by a header look-alike reports that known finding itself)
+              ELSE IF s.lookalikes > 0 THEN ""
               ELSE IF \E k \in 1..Len(r.peers) : PeerOK(r.peers[k]) /\ r.peers[k].failed # r.failed
-                                                   /\ ~(r.peers[k].lookalikes > 0 /\ ~r.peers[k].failed)
+                                                   /\ r.peers[k].lookalikes = 0
                    THEN "C02:modes-verdict-differs" ELSE ""
   IN NoteAllF(s, <<C04(c04), C04(c04b), C03(c03), C03(c03b), C03(c03l), C03(c03m), C01(c01), C02(c02), C02(c02b),
                   C10(c10), C16(c16), C12(c12a), C12(c12b), C12(c12c), C12(c12d)>>)
